@@ -339,6 +339,12 @@ def literal_cases(chk, n):
         samples = []
         for s in strs:
             samples.append({"a": [s] if in_list else s, "b": 1})
+        if family and rng.random() < 0.6:
+            # the members of a comma-join family side by side in one list, and joined in another
+            t = min(strs, key=len)
+            samples = [{"a": [t + "," + t], "b": 1}, {"a": [t, t], "b": 2}, {"a": [t, t + "," + t + "," + t], "b": 3}]
+            parts = rng.sample(["x", "y", "é", "'"], 2)
+            samples += [{"a": [",".join(parts)], "b": 4}, {"a": list(parts), "b": 5}]
         if company is not None or not samples:
             samples.append({"a": [company] if in_list and company is not None else company, "b": 2})
         if rng.random() < 0.3 and strs:
